@@ -72,6 +72,45 @@ pub struct ApiPlan {
     /// StreamingQueueConfig.adaptive_mode (library API only; the CLI rejects --adaptive)
     #[serde(default)]
     pub adaptive: bool,
+    /// Some(seed): contigs are pushed in an interleaved order - a sample is resumed after contigs
+    /// of other samples (A, B, A, A); per-sample contig order and first-seen sample order are kept
+    #[serde(default)]
+    pub interleave_seed: Option<u64>,
+}
+
+/// Push order of (sample index, contig index) for the library-API driver.
+pub fn push_order(plan: &ApiPlan, w: &Workload) -> Vec<(usize, usize)> {
+    let mut order = Vec::new();
+    let Some(seed) = plan.interleave_seed else {
+        for (si, s) in w.samples.iter().enumerate() {
+            for ci in 0..s.contigs.len() {
+                order.push((si, ci));
+            }
+        }
+        return order;
+    };
+    let mut r = Rng::new(seed);
+    let n = w.samples.len();
+    let mut next = vec![0usize; n];
+    let mut started = 0usize;
+    let mut cur: Option<usize> = None;
+    let total: usize = w.samples.iter().map(|s| s.contigs.len()).sum();
+    while order.len() < total {
+        let open: Vec<usize> = (0..started).filter(|&i| next[i] < w.samples[i].contigs.len()).collect();
+        let choice = match (cur, r.below(10)) {
+            (Some(c), 0..=5) if next[c] < w.samples[c].contigs.len() => c,
+            (_, 6..=7) if !open.is_empty() => open[r.below(open.len() as u64) as usize],
+            _ if started < n => {
+                started += 1;
+                started - 1
+            }
+            _ => open[r.below(open.len() as u64) as usize],
+        };
+        order.push((choice, next[choice]));
+        next[choice] += 1;
+        cur = Some(choice);
+    }
+    order
 }
 
 #[derive(Clone, Debug, Serialize, Deserialize, PartialEq)]
@@ -165,7 +204,11 @@ pub fn generate_api(run_seed: u64, oversize_pct: u64) -> PipeSpec {
     let mut calls: Vec<(u32, u8)> = (0..ncalls).map(|_| (r.below(total as u64 + 1) as u32, r.below(2) as u8)).collect();
     calls.sort();
     let concatenated = r.pct(50);
-    spec.api = Some(ApiPlan { calls, concatenated, adaptive: r.pct(20) });
+    let adaptive = r.pct(20);
+    // own stream: existing run indices keep their other dimensions
+    let mut ri = Rng::new(run_seed ^ 0x1EAF_A91);
+    let interleave_seed = if ri.pct(15) { Some(ri.next()) } else { None };
+    spec.api = Some(ApiPlan { calls, concatenated, adaptive, interleave_seed });
     spec
 }
 
@@ -357,12 +400,12 @@ pub fn api_body(cfg: &PipeCfg, plan: &ApiPlan, w: &Workload) -> CreateResult {
         Ok(())
     };
     run_calls(&c, 0)?;
-    for s in &w.samples {
-        for (name, codes) in &s.contigs {
-            c.push(s.name.clone(), name.trim().to_string(), codes.clone()).map_err(|e| format!("{e:#}"))?;
-            n += 1;
-            run_calls(&c, n)?;
-        }
+    for (si, ci) in push_order(plan, w) {
+        let s = &w.samples[si];
+        let (name, codes) = &s.contigs[ci];
+        c.push(s.name.clone(), name.trim().to_string(), codes.clone()).map_err(|e| format!("{e:#}"))?;
+        n += 1;
+        run_calls(&c, n)?;
     }
     c.finalize().map_err(|e| format!("{e:#}"))
 }
